@@ -835,6 +835,22 @@ func (p *parser) parseStatement1() (*a.Node, error) {
 				x.Str(p.tm), sepStr, labelStr, p.filename, p.line())
 		}
 
+		// The generated code for an iterate loop is a sequence of C loops (one
+		// per round, plus unrolling remainders), whose cursor advances at the
+		// end of each body. A C "break" would only leave the current round
+		// and a C "continue" would skip the advance (looping forever). Until
+		// iterate loops support jumps, reject them, also when the jump leaves
+		// an iterate loop on the way to an outer while loop.
+		for i := len(p.loops) - 1; i >= 0; i-- {
+			if p.loops[i].Keyword() == t.IDIterate {
+				return nil, fmt.Errorf(`parse: %s out of (or inside) an iterate loop is not supported at %s:%d`,
+					x.Str(p.tm), p.filename, p.line())
+			}
+			if p.loops[i] == loop {
+				break
+			}
+		}
+
 		deep := loop != p.loops.Top()
 		if x == t.IDBreak {
 			loop.SetHasBreak(deep)
